@@ -14,7 +14,10 @@ META = {
     "within [0,1], scale invariant), that return series / multiples follow their definitions and that total and annualised returns agree "
     "across end-point, net-value-series and return-series forms (x**c as an uninterpreted function: equality of forms reduces to "
     "equality of the bases). Volatility, Sharpe, alpha and beta run inside numpy/pandas C kernels that proxies cannot enter: they are "
-    "NOT solver-decided; they are only recomputed from the definition on the solver's models in the concrete witness runs.",
+    "NOT solver-decided; they are only recomputed from the definition on the solver's models in the concrete witness runs. What IS solver-decided "
+    "around them: the annualisation rule of volatility for every sampling interval (std as a stub, sqrt axiomatised) and the wiring of "
+    "performance_metrics (symbolic time stamps with pandas' Timedelta attribute semantics, kernels as recorders): the interval and duration "
+    "handed to volatility / Sharpe / annualised return equal (t1 - t0) and n x (t1 - t0) in days for every interval from 1 minute to 45 days.",
     "bounds": ["series length n in {2..4} (quick) / {2..6} (thorough), values in [1e-3, 1e6], scale factor in [1e-3, 1e3], duration in days in [1, 3650]"],
     "outside": ["volatility, Sharpe ratio, alpha, beta (C kernels; witness-run recomputation only, labelled WITNESS)", "series longer than 6", "IEEE-754 rounding (floats modelled as reals, tolerance 1e-9 relative)"],
     "assumptions": ["floats modelled as reals", "x ** c is an uninterpreted function of (x, c)"],
